@@ -77,7 +77,8 @@ def oracle(ctx, kind, p):
         if not _trees.wellformed(node, rm):
             ctx.count('generator_not_wf')
             return
-        meta = {'id': str(p['i']), 'snt': 'x y'} if p['i'] % 5 == 0 else None
+        meta = ({'id': str(p['i']), 'snt': 'x y'} if p['i'] % 10 == 0 else
+                {'': 'draft, do not cite', 'k': '', 'snt': '  two leading blanks'} if p['i'] % 10 == 5 else None)
         ctx.current = _trees.payload(node, mname, meta=meta)
         _trees.c02(ctx, node, mname, meta)
         if p['i'] % 4 == 0:
